@@ -233,6 +233,8 @@ class SchedRunner:
         self.handovers = 0
         self.notes = []
         self.hang = None
+        self.orphans = []
+        self.orphans_seen = set()
         self.token_log = []
         js = [i.spec.get("jobserver") for i in self.invs if i.spec.get("jobserver")]
         if js:
@@ -430,6 +432,12 @@ class SchedRunner:
                 g.released = True
                 continue
             alive.append(g)
+            # a script that sits at a gate is certainly still running; the redo process that started it must be too
+            if g.ppid and (g.target, g.ppid) not in self.orphans_seen:
+                ost, _, _, _ = proc_state(g.ppid)
+                if ost is None or ost == "Z":
+                    self.orphans_seen.add((g.target, g.ppid))
+                    self.orphans.append({"target": g.target, "gate": g.gid, "script_pid": g.pid, "redo_pid": g.ppid})
         return alive
 
     # ---------- main loop ----------
